@@ -13,7 +13,7 @@ REQUIRED = ['gregory_subtract_exact', 'gregory_split_equal', 'gregory_meets_spec
             'hare_draws_in_contract', 'hare_draw_outside_contract',
             'conservation', 'conservation_runCounts', 'conservation_gregory', 'conservation_hare', 'conservation_step',
             'trace_states_reached', 'weights_nonneg', 'topCont_some_iff', 'topCont_none_iff',
-            'rests_with_top_continuing', 'exhausted_only_when_none_remains',
+            'rests_with_top_continuing', 'exhausted_only_when_none_remains', 'rests_with_top_of_strict_prefix', 'shared_first_rank_divides_equally',
             'elected_only_by_quota_or_last_standing', 'retained_count_formula', 'eliminates_exactly_lowest',
             'exhausted_pile_never_contender', 'removed_after_election_are_elected']
 REQUIRED_COUNTERS = ['surplus_transfer', 'exhausted_pile_gt_candidate', 'shared_first_rank', 'zero_first_pref_candidate',
@@ -33,7 +33,7 @@ NOT_VERIFIED = ['random module: Hare draws are recorded from distribute_n_random
                 'dict equality `new_allocation == allocation` is modelled as "nothing elected and nothing eliminated"']
 EXHAUSTIVE = {'thorough': False}
 _CACHE = {}
-UNPROVED = ['shared_first_rank_divides_equally (allocation level; the split function itself is proved exact and equal: gregory_split_equal)']
+UNPROVED = []
 
 
 # ------------------------------------------------------------------------------------------------
@@ -113,10 +113,11 @@ def _run_nth(case):
         res, counts, draws, bad, msg = record_run(
             case, lambda d, s: d.nth_count(votes, n, k, prev_gains=seats_dict(case.get('prev')), max_seats=seats_dict(case.get('max'))))
     if isinstance(res, dict) and 'err' in res:
-        return {'err': res['err'], '_draws': draws, '_bad_draws': bad}
+        return {'err': res['err'], '_draws': draws, '_bad_draws': bad, '_detail': counts}
     totals, seats = res
     return {'totals': [[None if h is None else NAMES.i(h), num_str(t)] for h, t in totals.items()],
-            'seats': [NAMES.i(c) for c in seats] if selector else enc_seats(seats), '_draws': draws, '_bad_draws': bad}
+            'seats': [NAMES.i(c) for c in seats] if selector else enc_seats(seats), '_draws': draws, '_bad_draws': bad,
+            '_detail': counts}
 
 
 def impl(case):
@@ -257,19 +258,24 @@ def _check_count(case, a_in, prev, rec, out, where):
                         f'configured number {want}'))
 
 
+def _overshoot(case, detail):
+    """more seats awarded than asked for (distributor form, multi-seat over-award): outside this property (seat
+    totals are C08's subject); a run is followed only up to that state"""
+    seats_run = sum(k for _, k in (case.get('prev') or [])) if case.get('form', 'selector') != 'selector' else 0
+    overshoot = seats_run > case['n']
+    for rec in detail:
+        if 'err' not in rec:
+            seats_run += sum(k for _, k in rec['elected'])
+            overshoot = overshoot or seats_run > case['n']
+    return overshoot
+
+
 def _oracle_trace(case, obs):
     out = []
     if obs['_bad_draws']:
         out.append(('draw_contract', obs['_bad_draws'][0]))
     res = obs['result']
-    # more seats awarded than asked for (distributor form, multi-seat over-award): outside this property (seat
-    # totals are C08's subject); the run is then followed only up to that state
-    seats_run = sum(k for _, k in (case.get('prev') or [])) if case.get('form', 'selector') != 'selector' else 0
-    overshoot = seats_run > case['n']
-    for rec in obs['_detail']:
-        if 'err' not in rec:
-            seats_run += sum(k for _, k in rec['elected'])
-            overshoot = overshoot or seats_run > case['n']
+    overshoot = _overshoot(case, obs['_detail'])
     if (isinstance(res, dict) and 'err' in res and res['err'] not in ('NotImplementedError', 'VotingSystemError')
             and not overshoot):
         out.append(('unexpected_error', f"{res['err']}: {obs.get('_msg')}"))
@@ -345,7 +351,8 @@ def oracle(case, obs):
     out = []
     if obs.get('_bad_draws'):
         out.append(('draw_contract', obs['_bad_draws'][0]))
-    if 'err' in obs and obs['err'] not in ('NotImplementedError', 'VotingSystemError'):
+    if ('err' in obs and obs['err'] not in ('NotImplementedError', 'VotingSystemError')
+            and not _overshoot(case, obs.get('_detail', []))):
         out.append(('unexpected_error', obs['err']))
     return out
 
@@ -684,7 +691,8 @@ LEVEL_TEXT = ('initial_allocation, next_count (quota election with over-award co
               'modelled line for line in Lean. Proved for all profiles, seat numbers, configurations, previous gains / maximum seats and '
               'any number of counts (induction over counts): exact conservation (held + empty ballots + quota x seats filled by quota = '
               'votes cast) for Gregory and for Hare under the draw contract, no negative weight, every paper without shared ranks rests '
-              'with its highest-ranked continuing candidate or is exhausted only if none remains, election only by k>=1 quotas or by the '
+              'with its highest-ranked continuing candidate or is exhausted only if none remains, a shared first rank is divided into exactly '
+              'equal parts among its candidates under Gregory, election only by k>=1 quotas or by the '
               'last-standing shortcut, elimination of exactly #continuing - max(#continuing+step,1) strictly lowest continuing candidates '
               'independent of the exhausted pile. The model is tied to /repo by a count-by-count differential correspondence (every '
               'intermediate allocation, elected and eliminated sets) plus a direct oracle of the five invariants on every count of the '
@@ -692,5 +700,4 @@ LEVEL_TEXT = ('initial_allocation, next_count (quota election with over-award co
 LEVEL_NOTE = ('Trusted: Lean kernel + propext/Classical.choice/Quot.sound; translate.py for the quota functions; the correspondence '
               'harness (bounded by its generator: <= 6 candidates, <= 10 ballot types); the random module (Hare draws are recorded and '
               'replayed, the DrawOK contract is checked on both sides); frozenset iteration order and the order of papers in a pile. '
-              'Not proved: the equal division of a shared first rank at the level of the whole initial allocation (proved for the split '
-              'function itself).')
+              'The "top continuing" clause is proved for ballots without shared ranks, as the property states it.')
